@@ -250,10 +250,11 @@ class SQLiteConnection(DBAPI):
 
     @classmethod
     def _queryAddLimitOffset(cls, query, start, end):
+        if end is None:
+            # SQLite: a negative LIMIT means "no upper bound"
+            return "%s LIMIT -1 OFFSET %i" % (query, start)
         if not start:
             return "%s LIMIT %i" % (query, end)
-        if not end:
-            return "%s LIMIT 0 OFFSET %i" % (query, start)
         return "%s LIMIT %i OFFSET %i" % (query, end - start, start)
 
     def createColumn(self, soClass, col):
